@@ -89,6 +89,12 @@ impl Walk {
 }
 
 fn run_body(n: usize, d: usize, klen: usize, start_kind: u8, undef: u8, pre_err: bool) {
+    run_body_fixed(n, d, klen, start_kind, undef, pre_err, 255, 0)
+}
+
+/// `fix_kind` != 255: the result kind (and interrupt number) of the first executed instruction is a parameter of
+/// the harness; its jump target, flag word and AX stay symbolic
+fn run_body_fixed(n: usize, d: usize, klen: usize, start_kind: u8, undef: u8, pre_err: bool, fix_kind: u8, fix_int: u8) {
     syms!(usize; w_start_map, w_undef_pos, w_tg0, w_tg1, w_tg2, w_tg3, w_tg4, w_tg5);
     syms!(usize; w_el0, w_el1, w_el2, w_es0, w_es1, w_ee0, w_ee1, w_ds0, w_ds1);
     syms!(u8; w_kd0, w_kd1, w_kd2, w_kd3, w_kd4, w_kd5, w_in0, w_in1, w_in2, w_in3, w_in4, w_in5);
@@ -139,6 +145,11 @@ fn run_body(n: usize, d: usize, klen: usize, start_kind: u8, undef: u8, pre_err:
     sc.print_ok = w_pok;
     drv::reset(sc);
     drv::set_shape(n, d, start_kind, undef, klen, pre_err);
+    if fix_kind != 255 {
+        sc.kind[0] = fix_kind;
+        sc.int[0] = fix_int;
+        drv::fix_first(fix_kind, fix_int);
+    }
 
     // ------------------------------------------------ the real run()
     let driver = CMDDriver::new(String::new(), w_interpreted);
@@ -359,11 +370,15 @@ fn run_body(n: usize, d: usize, klen: usize, start_kind: u8, undef: u8, pre_err:
     vassert!("C08.run.log_complete", !io::log_overflow());
     let runs = start_kind == 1 && !never_defined && n > 0 && !pre_err;
     vcover!("C20.run.cover.prompt_by_trap_flag_only", stepped_tf_only || !runs || klen < 2);
-    vcover!("C20.run.cover.int3", saw_int3 || !runs || klen == 0);
-    vcover!("C08.run.cover.backward_jump", saw_back_jump || !runs || klen == 0);
-    vcover!("C18.run.cover.unsupported_ah", saw_bad_ah || !runs || klen == 0);
-    vcover!("C07.run.cover.repeat", saw_repeat || !runs || klen == 0);
-    vcover!("C08.run.cover.ran_to_script_end", executed == klen + 1 || !runs);
+    let free = fix_kind == 255;
+    let can = runs && klen >= 1;
+    vcover!("C20.run.cover.int3", saw_int3 || !can || !(free || (fix_kind == 4 && fix_int == 3)));
+    vcover!("C08.run.cover.backward_jump", saw_back_jump || !can || !(free || fix_kind == 2));
+    vcover!("C18.run.cover.unsupported_ah", saw_bad_ah || !can || !(free || (fix_kind == 4 && (fix_int == 0x10 || fix_int == 0x21))));
+    vcover!("C07.run.cover.repeat", saw_repeat || !can || !(free || fix_kind == 5));
+    vcover!("C08.run.cover.ran_to_script_end", executed == klen + 1 || !runs || !free);
+    // the first instruction sets TF: the second one is stepped although the switch is off
+    vcover!("C20.run.cover.second_instruction_stepped_by_tf", stepped_tf_only || !can || !(fix_kind == 3 || fix_kind == 2 || fix_kind == 5));
     vcover!("C08.run.cover.empty_program", n != 0 || start_kind != 1 || pre_err || executed == 1);
 }
 
@@ -383,6 +398,25 @@ run_harness!(c15_run_empty_program, 0, 0, 1, 1, 0, false, 12);
 // the first instruction only (the interpreter stub halts at once): where execution begins, the prompt before it
 run_harness!(c16_run_first_instruction_n1, 1, 0, 0, 1, 0, false, 12);
 run_harness!(c16_run_first_instruction_n2, 2, 0, 0, 1, 0, false, 12);
+macro_rules! first_harness {
+    ($name:ident, $n:expr, $kind:expr, $int:expr) => {
+        #[cfg_attr(kani, kani::proof)]
+        #[cfg_attr(kani, kani::unwind(12))]
+        #[cfg_attr(kani, kani::stub(core::str::slice_error_fail, emulator_8086_lib::verif_rt::slice_fail_stub))]
+        pub fn $name() {
+            run_body_fixed($n, 0, 1, 1, 0, false, $kind, $int);
+        }
+    };
+}
+// one executed instruction whose result KIND is fixed per harness (target / flags / AX symbolic), then the script halts
+first_harness!(c08_run_first_next, 2, 3, 0);
+first_harness!(c08_run_first_jmp, 2, 2, 0);
+first_harness!(c08_run_first_print, 2, 1, 0);
+first_harness!(c07_run_first_repeat, 2, 5, 0);
+first_harness!(c03_run_first_int0, 2, 4, 0);
+first_harness!(c20_run_first_int3, 2, 4, 3);
+first_harness!(c18_run_first_int10, 2, 4, 0x10);
+first_harness!(c18_run_first_int21, 2, 4, 0x21);
 run_harness!(c14_run_start_absent, 1, 0, 1, 0, 0, false, 12);
 run_harness!(c14_run_start_is_data, 1, 0, 1, 2, 0, false, 12);
 run_harness!(c14_run_undefined_label, 1, 0, 1, 1, 1, false, 12);
@@ -407,6 +441,14 @@ pub const TABLE: &[(&str, fn())] = &[
     ("c15_run_empty_program", c15_run_empty_program),
     ("c16_run_first_instruction_n1", c16_run_first_instruction_n1),
     ("c16_run_first_instruction_n2", c16_run_first_instruction_n2),
+    ("c08_run_first_next", c08_run_first_next),
+    ("c08_run_first_jmp", c08_run_first_jmp),
+    ("c08_run_first_print", c08_run_first_print),
+    ("c07_run_first_repeat", c07_run_first_repeat),
+    ("c03_run_first_int0", c03_run_first_int0),
+    ("c20_run_first_int3", c20_run_first_int3),
+    ("c18_run_first_int10", c18_run_first_int10),
+    ("c18_run_first_int21", c18_run_first_int21),
     ("c14_run_start_absent", c14_run_start_absent),
     ("c14_run_start_is_data", c14_run_start_is_data),
     ("c14_run_undefined_label", c14_run_undefined_label),
